@@ -58,6 +58,14 @@ def std_dataset(rng, **kw):
     D.meta['nointernal'] = rng.random() < 0.3
     return D
 
+def large_dataset(rng):
+    """a dataset one or two orders of magnitude larger than the usual ones (about 30 species, 100+ families, a hundred or
+    more genes per genome): size-dependent shortcuts need sizes.  Evaluated by the oracles on pyham's objects only (the
+    Lean driver is quadratic in places and is not run on these)."""
+    D = std_dataset(rng, maxleaves=rng.choice([24, 32]), nfam=rng.choice([80, 120]), P=dict(dup=0.35, elide=0.6, loss=0.15), no_unary=True)
+    D.meta['large'] = True
+    return D
+
 def respell(rng, D):
     """randomly re-spell paralog nests / member order on the raw elements (same meaning)"""
     r = rng.random()
@@ -201,6 +209,9 @@ def dataset_stream(ex, n, exhaustive):
             if nml:
                 D.meta['mislabelled'] = nml; ex.res.count('cases_with_labels_above_the_level')
         yield D
+    for _ in range(2):
+        ex.res.count('large_datasets')
+        yield large_dataset(ex.rng)
     if getattr(ex, 'wild', False):
         # secondary stream: files that are not encodings of histories (gen.wild_dataset).  The loader and its model must
         # agree on them too (accepted / rejected with the same exception class; same hierarchy, genomes, genes), and
@@ -286,6 +297,8 @@ def explore_load(prop, tier, seed, oracle, tags, n_quick, emit=(), with_truth=Fa
             bad = ['observing the loaded analysis raised %s: %s' % (type(e).__name__, e)]
         if bad:
             ex.fail(cid, D, bad)
+        if D.meta.get('large'):
+            continue            # oracle only
         # (species-level files: the model follows the dissolving branch of the loader too -- compare the whole hierarchy)
         ex.submit(cid, D, o.tags, tags + (['forest', 'genomes'] if D.meta.get('species_level') else []), emit=emit, extra=o)
         if prop == 'C02' and D.species and k % 5 == 0:
@@ -401,7 +414,7 @@ def explore_maps(prop, tier, seed, n_quick, mode):
     ex = Explorer(prop, tier, seed)
     n = budget(tier, n_quick)
     for k in range(n):
-        D = respell(ex.rng, std_dataset(ex.rng))
+        D = respell(ex.rng, std_dataset(ex.rng)) if k >= 2 else large_dataset(ex.rng)
         cid = '%s-%d' % (prop, k)
         ex.note_dataset(D)
         if ex.rng.random() < 0.2:
@@ -486,6 +499,8 @@ def explore_maps(prop, tier, seed, n_quick, mode):
         if bad:
             ex.fail(cid, D, bad)
         tags = {'C05': ['vmap'], 'C06': ['vmap', 'upmap'], 'C07': ['upmap'], 'C08': ['lmap', 'lagg', 'vmap', 'verr', 'lerr']}[mode]
+        if D.meta.get('large'):
+            ex.res.count('large_datasets'); continue
         ex.submit(cid, D, o.tags, ['load'] + tags, queries=queries)
     # ---- files outside the history domain, with the MODEL as reference (C05 / C06 only): two separate duplication events on one
     # branch (sibling paralogGroups), species-level groups, files that encode no history.  Wherever the model's comparison is
@@ -555,7 +570,7 @@ def explore_profiles(prop, tier, seed, n_quick):
         kw = {}
         if ex.rng.random() < 0.4:
             kw['top_positions'] = 'any'
-        D = respell(ex.rng, std_dataset(ex.rng, **kw))
+        D = respell(ex.rng, std_dataset(ex.rng, **kw)) if k >= 2 else large_dataset(ex.rng)
         if k % 7 == 6:
             # duplications of which a single copy is left in the file (a paralogGroup with one member): outside the
             # spelled-history domain, but the profiles are defined for them and the model computes them
@@ -625,6 +640,8 @@ def explore_profiles(prop, tier, seed, n_quick):
             bad = ['tree profile raised %s: %s' % (type(e).__name__, e)]
         if bad:
             ex.fail(cid, D, bad)
+        if D.meta.get('large'):
+            ex.res.count('large_datasets'); continue
         ex.submit(cid, D, o.tags, ['load', 'tpfull', 'tpjson'] if prop == 'C09' else ['load', 'tpfull', 'tphog', 'tphogsub'], emit=['profiles'], queries=subq)
     ex.finish()
     ex.close()
@@ -907,6 +924,8 @@ def c16(tier, seed):
         if k % 8 == 7:
             # species-level groups (dissolved by the loader): navigation inside the family must be self-consistent there too
             D = gen.species_wrap(ex.rng, std_dataset(ex.rng)); ex.res.count('species_level_group_files')
+        elif k == 0:
+            D = large_dataset(ex.rng); ex.res.count('large_datasets')
         else:
             D = respell(ex.rng, std_dataset(ex.rng))
         cid = 'C16-%d' % k
@@ -933,6 +952,8 @@ def c16(tier, seed):
             bad = ['navigation raised %s: %s' % (type(e).__name__, e)]
         if bad:
             ex.fail(cid, D, bad)
+        if D.meta.get('large'):
+            continue
         ex.submit(cid, D, o.tags, ['load', 'nav', 'aclust', 'atlevel'], emit=['nav'], queries=queries, hist=not D.meta.get('species_level'))
     ex.finish()
     ex.close()
